@@ -194,6 +194,15 @@ PktPropNames(e) ==
   IF ~Usable(e) THEN {}
   ELSE (IF ~EnergiesAgree(e) /\ ~RangesAgree(e) /\ PreStatesAgree(e) THEN {"C02: decoded band energies differ from the encoder's and the final ranges differ"} ELSE {})
        \cup (IF e.uc.err = 0 /\ e.uf.err = 0 /\ e.uz.err = 0 /\ e.derr = 0 THEN {} ELSE {"C02: the decoder's range coder reports an error on an encoder-made packet"})
+       \* C17 (decode inverts encode, for the table-driven coarse-energy symbol code): the decoder started from the encoder's
+       \* predictor state, read exactly the symbols, tells and flags the encoder wrote (so both range coders ended in the same
+       \* state) and the same fine / final bits - and still reconstructs different band energies, outside the named deviations
+       \* of the pinned tree.  Only the value <-> symbol mapping is left to differ.
+       \cup (LET k == EncKept(e.qc) IN
+             IF ~EnergiesAgree(e) /\ RangesAgree(e) /\ PreStatesAgree(e) /\ ~Deviation(k) /\ k # {} /\ (\E kk \in k : SymbolsAgree(e, kk))
+                /\ e.uf.bits = e.qf.bits /\ e.uz.bits = e.qz.bits
+             THEN {"C17: the decoder read exactly the symbols the encoder wrote, from the same predictor state, and reconstructs different band energies (decode does not invert encode for the coarse-energy symbol code)"}
+             ELSE {})
 PktModelNames(e) ==
   (IF HasCall(e.qc) THEN EncCoarseNames(e.qc) ELSE IF e.qc.n = 0 THEN {} ELSE {"more than one quant_coarse_energy call per packet"})
   \cup (IF HasCall(e.qf) THEN EncFineNames(e.qf) ELSE {})
